@@ -167,10 +167,14 @@ class World:
                     '[gc]\n\tauto = 0\n'
                     '[protocol "file"]\n\tallow = always\n')
         _import_berte()
+        if log_level is None:
+            import logging
+            logging.disable(logging.CRITICAL)
         self.remote = os.path.join(root, 'remote', SLUG + '.git')
         self.berte = None
         self.tick = 0
         self._setup_host()
+        self._wrap_host()
         self._patch()
 
     # -- host ---------------------------------------------------------------
@@ -218,6 +222,8 @@ class World:
             libgit.cmd, '__wrapped__') else libgit.cmd
         self.cmd_log = None
         self.cmd_hook = None   # callable(index, command, kwargs) -> None/str
+        self.mut_log = None    # remote-mutating operations of the current job
+        self.mut_hook = None   # callable(index, kind, descr); may raise Crash
 
         def recording_cmd(command, **kwargs):
             log = self.cmd_log
@@ -232,6 +238,7 @@ class World:
                     command = repl
             is_push = command.startswith('git push')
             if is_push:
+                self.mutating('push', command)
                 rec['before'] = self.refs()
             try:
                 out = self._real_cmd(command, **kwargs)
@@ -246,6 +253,40 @@ class World:
                     rec['after'] = self.refs()
         recording_cmd.__wrapped__ = self._real_cmd
         libgit.cmd = recording_cmd
+
+    def mutating(self, kind, descr):
+        """Called immediately before every remote-mutating operation of a
+        job (git push, host comment / PR creation / decline / status)."""
+        log = self.mut_log
+        if log is None:
+            return
+        idx = len(log)
+        log.append((kind, descr))
+        if self.mut_hook is not None:
+            self.mut_hook(idx, kind, descr)
+
+    def _wrap_host(self):
+        mock = self.mock
+        if getattr(mock, '_verif_wrapped', False):
+            mock._verif_world = self
+            return
+        mock._verif_wrapped = True
+        mock._verif_world = self
+
+        def wrap(cls, name, kind):
+            orig = getattr(cls, name)
+
+            def wrapper(self_, *a, **kw):
+                mock._verif_world.mutating(kind, '%s %s' % (
+                    name, (a[0] if a else '')[:40] if a and isinstance(
+                        a[0], str) else ''))
+                return orig(self_, *a, **kw)
+            wrapper.__name__ = name
+            setattr(cls, name, wrapper)
+        wrap(mock.PullRequestController, 'add_comment', 'comment')
+        wrap(mock.PullRequestController, 'decline', 'decline')
+        wrap(mock.PullRequestController, 'set_bot_status', 'bot_status')
+        wrap(mock.Repository, 'create_pull_request', 'create_pr')
 
     # -- git helpers on the bare remote ---------------------------------------
     def git(self, *args, env=None, check=True, input=None):
